@@ -1176,7 +1176,7 @@ func c17(c *Ctx) {
 	}
 	c.Rule = "probes: one witness grammar per known class of build failures (" + fmt.Sprint(len(c17Classes)) + " classes: guard-level ones listed in the Lean expectation table, type-level template defects, go vet complaints, symbol-name collisions); " +
 		"table widths: gen.bitsPerElement / gen.bits vs the Lean mirror on random arrays mixing small values with the extremes of int8/int16/int32 of both signs (judge: the chosen width must hold every element); " +
-		"families in every run: 12 width grammars (one rule of n keywords and a literal of n characters: parser states, rule length and lexer DFA states 126..131, optimizeTables on/off; thorough: 32768/32769 states) and lexer shapes ((space) rule? x code action? in all four combinations, the other lexer dimensions - typed token, class rule, explicit invalid_token rule, backtracking, start conditions, tokenLine, scanBytes, with/without a parser - at random); " +
+		"families in every run: 12 width grammars (one rule of n keywords and a literal of n characters: parser states, rule length and lexer DFA states 126..131, optimizeTables on/off; thorough: 32768/32769 states) state markers x minimizeDFA (one marker at the same position of 3..7 alternatives with repeating tails and randomly ordered terminals, so that non-adjacent marker states merge; the states of every marker of every compiled grammar must be distinct, they are the keys of a generated map literal) and lexer shapes ((space) rule? x code action? in all four combinations, the other lexer dimensions - typed token, class rule, explicit invalid_token rule, backtracking, start conditions, tokenLine, scanBytes, with/without a parser - at random); " +
 		"sweep: skeleton grammars (statement/expression language; lexer features: class rule + keywords, typed token, unicode classes beyond U+0800, backtracking, start conditions, space/comment tokens, invalid_token, lexer code; " +
 		"parser features: error recovery, recoveryScope marker, %inject, lookahead predicates, lalr(2), typed nonterminals with semantic actions and aliases, mid-rule actions, several inputs, no-eoi inputs, named sets, %interface categories, state markers, lists with separators, optionals, inner arrows, precedence, template flags) " +
 		"and random CFGs (gram.go RandGram) with rule arrows, under feature/option vectors chosen greedily for pairwise coverage of " + fmt.Sprint(len(c17Bools)) + " Boolean dimensions (eventBased/eventFields/eventAST/genSelector/fileNode/tokenStream/fixWhitespace/cancellable(+Fetch)/recursiveLookaheads/optimizeTables/defaultReduce/minimizeDFA/writeBison/debugParser/tokenLine/tokenLineOffset/tokenColumn/scanBytes/nonBacktracking/skipByteOrderMark/caseInsensitive/nodePrefix/extraTypes and the features above), normalised by the dependencies the compiler enforces; " +
@@ -1349,7 +1349,7 @@ func c17(c *Ctx) {
 	fb.close()
 
 	// ---- sweep
-	nBatches, perBatch := c.N(1, 6), c.N(40, 50)
+	nBatches, perBatch := c.N(1, 6), c.N(34, 50)
 	pw := &c17Pairwise{r: c.Rng, covered: map[[4]int]bool{}, avoid: avoid}
 	serial := 0
 	for bi := 0; bi < nBatches; bi++ {
